@@ -137,7 +137,7 @@ fn splitting(run: &mut Run, rng: &mut Rng) {
         if rng.chance(1, 2) {
             let k = rng.below(7);
             for _ in 0..k {
-                s.push_str(rng.pick(&frags));
+                s.push_str(*rng.pick(&frags[..]));
             }
         } else {
             let k = rng.below(24);
